@@ -215,6 +215,8 @@ class Soap11(XmlDocument):
             raise Fault('Client.SoapError', 'Soap envelope has no body entry!')
 
         if body_document.tag == '{%s}Fault' % self.ns_soap_env:
+            if message is self.REQUEST:
+                raise Fault('Client.SoapError', 'A Fault is not a request!')
             ctx.in_body_doc = body_document
 
         else:
